@@ -4,6 +4,19 @@ import mprop
 
 PROP = "C02"
 REPLAY_INJ = [("src/lib.rs", "replay_api.rs", "verif_replay_api")]
+B_INJ = [("src/wal/mod.rs", "replay_bytelog.rs", "verif_replay_bytelog")]
+
+
+def pick_inj(ob):
+    return B_INJ if "REAL SegmentReader" in ob.name else REPLAY_INJ
+
+
+def pick_test(ob):
+    if "REAL SegmentReader" in ob.name:
+        return "replay_byte_log"
+    if "truncate" in (ob.detail or ""):
+        return "replay_recovery_crash"   # recovery whose own checkpoint fails, then a second open
+    return "replay_api_wrappers"
 
 
 def obligations(tier, tags):
@@ -15,6 +28,9 @@ def obligations(tier, tags):
     for nrec, tail in recs:
         obs.append((f"replay of a well-formed log ({nrec} records{', empty tail segment' if tail else ''})", "replay_log",
                     (lambda nrec, tail: lambda ex: R.ob_replay(ex, nrec, tail))(nrec, tail)))
+    for nrec in ((1, 2, 3) if tier == "thorough" else (1, 2)):
+        obs.append((f"real reader + replay of an intact byte-structured log ({nrec} records, lengths 1..2^32-1)", "reader_replay_intact",
+                    (lambda n: lambda ex: R.ob_replay_real_reader(ex, n))(nrec)))
     obs.append(("replay_and_prepare", "replay_prepare", lambda ex: R.ob_prepare(ex)))
     for n in ((1, 2, 3) if tier == "thorough" else (1, 2)):
         obs.append((f"commit_checkpoint prune safety N={n}", "prune_safety", (lambda n: lambda ex: R.ob_commit_checkpoint(ex, n))(n)))
@@ -24,7 +40,7 @@ def obligations(tier, tags):
 def fill(ev, ex, mir_s, tier):
     ev.functions = ["wal::manager::WalManager::{segment_id_for_op_version,allocate_next_op_version,compute_checkpoint_target,"
                     "commit_checkpoint,get_segment_id_for_previous_op,replay_and_prepare,last_written_op_version,has_new_ops_since,"
-                    "has_written_ops}", "wal::replay::WalReplayer::replay (+closures)", "wal::storage::SegmentStorage::"
+                    "has_written_ops}", "wal::replay::WalReplayer::replay (+closures)", "wal::storage::SegmentReader::{next,read_next_entry} (+closures)", "wal::storage::SegmentStorage::"
                     "{prune_stale_segments,ensure_segment_file_exists}", "index::state::IndexState::recompute_stats"]
     ev.bounds = {"arithmetic": "all u64 versions and segment sizes (SMT Int + division lemma)",
                  "log": "0..3 records in any grouping into segments, versions strictly increasing, snapshot version symbolic (incl. none), "
@@ -45,6 +61,8 @@ def run(tier, seed, ev):
         obs = obligations(tier, ["C02"])
         obs.append(("recompute_stats == incremental stats", "recompute_stats", lambda ex: O.run_recompute(ex, 3, 3)))
         obs.append(("persister load rebuilds refcounts", "persister_load", lambda ex: O.run_load_refcounts(ex, 3, 3)))
-        rc = mprop.run_m(PROP, tier, seed, ev, ex, obs, REPLAY_INJ, "replay_api_wrappers")
+        rc = mprop.run_m(PROP, tier, seed, ev, ex, obs, pick_inj, pick_test)
         fill(ev, ex, mir_s, tier)
+        from props import tcommon
+        rc = tcommon.best(rc, tcommon.recovery_image_run(PROP, tier, seed, ev, ex))
         return rc
